@@ -128,6 +128,8 @@ def make_plan(tree, seed, i, tier="quick"):
     if rng.random() < 0.5:
         b = rng.choice([t for t in tcs if t != a])
         tc["b"] = list(b)
+        if rng.random() < 0.3:
+            tc["b"].append("-O2")  # the second configuration may also differ in optimisation level
         tc["b_variant"] = rng.choice(("single", "multi"))
     probe = {
         "include_order": rng.randrange(1 << 30) if rng.random() < 0.8 else None,
